@@ -134,8 +134,15 @@ func init() {
 				if a, b := strings.Join(ref.Results, "\n"), strings.Join(e.Results, "\n"); a != b {
 					return first, fmt.Errorf("schedule %q: operation results differ from schedule %q:\n%s\n---\n%s", variantName[v], variantName[0], a, b)
 				}
-				if !e.Stats.Has("composite_map") {
+				if e.Stats.Has("map_transferred_from_temp_address") && !cs.Cfg.AllowF6 {
+					// known finding F6 (DESIGN.md 10), excluded by construction: the seed of a map that was built at the temporary
+					// address depends on the storage instance's temporary-id counter, which restarts at every reopen
+					first.label("bytes_not_compared_known_F6")
+				} else if !e.Stats.Has("composite_map") {
 					if d := DiffRegs(ref.L.Regs, e.L.Regs); d != "" {
+						if e.Stats.Has("map_transferred_from_temp_address") {
+							return first, fmt.Errorf("schedule %q: final ledger differs from schedule %q (the history transfers a map from the temporary address - temporary-address seed): %s", variantName[v], variantName[0], d)
+						}
 						return first, fmt.Errorf("schedule %q: final ledger differs from schedule %q: %s", variantName[v], variantName[0], d)
 					}
 					first.label("bytes_compared")
